@@ -36,7 +36,19 @@ func (s *gRPCServer) Close() error {
 }
 
 func (s *gRPCServer) Shutdown(ctx context.Context) error {
-	s.server.GracefulStop()
+	// GracefulStop waits for all streams to complete. Close the
+	// remaining ones when the deadline expires.
+	done := make(chan struct{})
+	go func() {
+		s.server.GracefulStop()
+		close(done)
+	}()
+	select {
+	case <-done:
+	case <-ctx.Done():
+		s.server.Stop()
+		<-done
+	}
 	return nil
 }
 
